@@ -708,3 +708,37 @@ def _prefix_tail_absorbs(l, L):
     # the innermost operand is an atom or a binary printed (with parentheses if needed) at the level of the
     # last prefix operator; a trailing binary operator of level L then attaches outside iff L < that level
     return False
+
+
+# ---------------------------------------------------------------------------------------
+# unit-suffix spellings of the same durations (default unit s, sampling period 1 s)
+
+_UNIT_NS = {'s': 10 ** 9, 'ms': 10 ** 6, 'us': 10 ** 3, 'ns': 1}
+
+
+def _dur(seconds, unit):
+    q = Fraction(seconds) * _UNIT_NS['s'] / _UNIT_NS[unit]
+    if q.denominator != 1:
+        raise ValueError('not printable')
+    return str(q.numerator)
+
+
+def unit_text(f, rng):
+    """Text of ``f`` whose bounds (given in seconds) are written with unit suffixes: both ends (possibly
+    different units), the same suffix, or a suffix on one end only (which then applies to both).  The
+    durations are unchanged, so every oracle for the canonical text applies."""
+    def pr(i):
+        a, b = i
+        m = rng.choice(['both', 'same', 'end-only', 'begin-only'])
+        ua, ub = rng.choice(['s', 'ms', 'us']), rng.choice(['s', 'ms', 'us'])
+        if Fraction(a).denominator != 1 or Fraction(b).denominator != 1:
+            ua = rng.choice(['ms', 'us'])
+            ub = rng.choice(['ms', 'us'])
+        if m == 'both':
+            return '[%s%s,%s%s]' % (_dur(a, ua), ua, _dur(b, ub), ub)
+        if m == 'same':
+            return '[%s%s:%s%s]' % (_dur(a, ua), ua, _dur(b, ua), ua)
+        if m == 'end-only':
+            return '[%s,%s%s]' % (_dur(a, ub), _dur(b, ub), ub)
+        return '[%s%s,%s]' % (_dur(a, ua), ua, _dur(b, ua))
+    return to_text(f, ivl_printer=pr)
